@@ -28,6 +28,9 @@ func runC02(c *Check, tier string) {
 	ruleR01a(c, "R02i")
 	// "... or the target is tainted": a taint is removed only by a successful forced execution
 	ruleR13b(c, analyseGate(c, "R02j"), "R02j")
+	// "executes only if ...": the gate's conjuncts; "irretrievable outputs": the restore path
+	useFamily(c, "R02k", famGate, 8)
+	useFamily(c, "R02l", famRestore, 20)
 }
 
 // R02g: the result writer always stores (a no-op rebuild can only hit on what the last successful
